@@ -9,6 +9,7 @@ cd /verif
 ( cd checker && GOFLAGS=-mod=mod GOPROXY=off GOSUMDB=off GOTOOLCHAIN=local go build -o ../bin/ddcheck ./cmd/ddcheck ) || exit 2
 # the matrix runs with a frozen copy of the checker, so that work on the checker can go on meanwhile
 cp bin/ddcheck $O/ddcheck.bin; export DDCHECK_BIN=$O/ddcheck.bin
+rm -rf $O/verif; mkdir -p $O/verif; cp -r rules known_findings.json $O/verif/; export DDCHECK_VERIF=$O/verif
 { ls seeded/*/patch.diff mutants/regress/*.diff mutants/benign/*.diff mutants/benign2/*.diff mutants/preserving/*.diff; } > $O/list
 cat $O/list | xargs -P ${FM_JOBS:-6} -I{} sh -c 'n=$(echo {} | tr "/" "_"); MUT_LINES=40 tools/allcheck.sh {} > '$O'/$n.txt 2>&1'
 echo "== missed (own property silent):"
